@@ -292,6 +292,10 @@ def term(case, res):
             rfs = parse_lines(out, T)
     except (json.JSONDecodeError, ET.ParseError):
         wellformed = False
+    # "nothing that did not happen appears ... any reporter CLI options": the World of a failed step or hook (its Debug output is
+    # the marker WORLDDUMP#) is printed from the ShowWorld verbosity on, never at the default verbosity
+    if w in ("basic", "junit") and not case.get("verbose"):
+        T.check("WORLDDUMP#" not in out)
     texts = [f["name"] for f in case["features"]] + [r["name"] for f in case["features"] for r in f["rules"]] + \
             [s["name"] for f in case["features"] for _, s in gens.all_scenarios(f)] + [st["value"] for st in T.st.values()]
     cdata = any("]]>" in t for t in texts)
